@@ -288,7 +288,11 @@ func checkAndReplaceSequence(state *BuildState, target, dep *BuildTarget, ep, in
 			}
 			return quote(abs)
 		}
-		return quote(fileDestination(target, dep, out, dir, outPrefix, test))
+		dest := fileDestination(target, dep, out, dir, outPrefix, test)
+		if runnable && !strings.Contains(dest, "/") {
+			dest = "./" + dest // Otherwise the shell would look it up on the PATH.
+		}
+		return quote(dest)
 	}
 	var outputBuilder strings.Builder
 	if ep == "" {
